@@ -18,6 +18,24 @@
 (*   "A4doc"   : content of the selected transitions runs in document order *)
 (*               of the transitions (3.13 prose) rather than in the order   *)
 (*               of the atomic states that selected them (Appendix D)       *)
+(*   "A2raw"   : a transition that targets the history of an ancestor of    *)
+(*               its source: Appendix D computes the domain from the        *)
+(*               EFFECTIVE targets (the remembered / default states), which *)
+(*               may lie below a still active ancestor, but its entry set   *)
+(*               contains every state between them and the history's parent *)
+(*               -- the active ancestor's onentry would run again without   *)
+(*               its onexit.  Variant: the domain is computed from the      *)
+(*               history state itself, so those states are exited first.    *)
+(*   "uscxml"  : NOT an ambiguity of the Recommendation -- uSCXML's own     *)
+(*               transition selection (both engines and all generated code):*)
+(*               ONE pass over the transitions in post-fix order; a         *)
+(*               transition is taken if its source is active, it is not in  *)
+(*               (static) conflict with one taken before, it matches and    *)
+(*               its condition holds.  Differs from Appendix D in that an    *)
+(*               ancestor's transition never joins a descendant's, and in   *)
+(*               that a state whose first enabled transition is pre-empted  *)
+(*               falls back to its next one (or its ancestors').  Used only *)
+(*               to give a deviation its exact root cause.                  *)
 (*   "static"  : NOT an ambiguity of the Recommendation -- the conflict     *)
 (*               relation of uSCXML (see Conflicts); used only to give a    *)
 (*               deviation its exact root cause (DESIGN.md 5, C04)          *)
@@ -53,7 +71,8 @@ FindLCCA(c, head, rest) ==
 (* getTransitionDomain; 0 stands for null *)
 TransitionDomain(c, hist, t) ==
     LET tr == c.trans[t]
-        ts == EffTargets(c, hist, tr.tgt)
+        ts == IF "A2raw" \in Variants THEN {tr.tgt[i] : i \in 1..Len(tr.tgt)}
+              ELSE EffTargets(c, hist, tr.tgt)
     IN  IF ts = {} THEN 0
         ELSE IF tr.internal /\ IsCompound(c, tr.src)
                 /\ \A s \in ts : IsDescendant(c, s, tr.src)
@@ -147,8 +166,39 @@ RCTOuter(c, M, enabled, i, filtered) ==
 
 RemoveConflictingTransitions(c, M, enabled) == RCTOuter(c, M, enabled, 1, <<>>)
 
+(* uSCXML's selection, see "uscxml" above.  The conflict relation is the static one of       *)
+(* Predicates.cpp conflicts(): exit sets (all proper states inside the domain) intersect,   *)
+(* or the sources are equal or ancestor-related.                                             *)
+StaticDomainOf(c, t) ==
+    LET tr == c.trans[t]
+        ts == {tr.tgt[i] : i \in 1..Len(tr.tgt)}
+    IN  IF ts = {} THEN 0
+        ELSE IF tr.internal /\ IsCompound(c, tr.src) /\ \A s \in ts : IsDescendant(c, s, tr.src) THEN tr.src
+        ELSE FindLCCA(c, tr.src, ts)
+StaticExitOf(c, t) ==
+    LET d == StaticDomainOf(c, t)
+    IN  IF d = 0 THEN {} ELSE {s \in NS(c) : IsProper(c, s) /\ IsDescendant(c, s, d)}
+StaticConflict(c, t1, t2) ==
+    \/ StaticExitOf(c, t1) \cap StaticExitOf(c, t2) # {}
+    \/ LET s1 == c.trans[t1].src
+           s2 == c.trans[t2].src
+       IN  s1 = s2 \/ IsDescendant(c, s1, s2) \/ IsDescendant(c, s2, s1)
+
+RECURSIVE UscxmlPass(_, _, _, _, _)
+UscxmlPass(c, M, ev, i, T) ==
+    IF i > Len(c.ptn) THEN [M |-> M, T |-> T]
+    ELSE LET t == c.ptn[i] IN
+         IF c.trans[t].src \in M.cfg /\ (\A j \in 1..Len(T) : ~StaticConflict(c, T[j], t)) /\ EventMatches(c, t, ev)
+         THEN LET r == CondOnce(M, t, c.trans[t].cond)
+              IN  UscxmlPass(c, r.E, ev, i + 1, IF r.v THEN Append(T, t) ELSE T)
+         ELSE UscxmlPass(c, M, ev, i + 1, T)
+
 (* selectEventlessTransitions (ev = NoEvent) / selectTransitions(event) *)
 SelectTransitions(c, M, ev) ==
+    IF "uscxml" \in Variants
+    THEN LET r == UscxmlPass(c, [M EXCEPT !.condErr = {}], ev, 1, <<>>)
+         IN  [M |-> [r.M EXCEPT !.condErr = {}], T |-> SortSeq(r.T, <)]
+    ELSE
     LET atomics == DocSeq({s \in M.cfg : IsAtomic(c, s)})
         r == SelectFrom(c, [M EXCEPT !.condErr = {}], ev, atomics, 1, <<>>)
         M1 == [r.M EXCEPT !.condErr = {}]
